@@ -116,8 +116,14 @@ def build_harness(flavor="ndebug", sanitize=True, opt="-O1"):
         return exe
 
 
+HANGS = [0]   # scenarios on which the driver did not return (this process): after the second one the watchdog gets short, so that a tree
+              # on which the library spins forever is reported in minutes, not after (scenarios x builds x full time limit)
+
+
 def run_harness(exe, scenario_text, timeout=120):
     """Run the driver on a scenario; returns (returncode, stdout, stderr)."""
+    if HANGS[0] >= 2:
+        timeout = min(timeout, 25)
     env = dict(os.environ)
     env["ASAN_OPTIONS"] = "detect_leaks=1:abort_on_error=0:exitcode=88:allocator_may_return_null=1"
     env["UBSAN_OPTIONS"] = "print_stacktrace=1:halt_on_error=1:exitcode=89"
@@ -125,6 +131,7 @@ def run_harness(exe, scenario_text, timeout=120):
         p = subprocess.run([exe], input=scenario_text, stdout=subprocess.PIPE, stderr=subprocess.PIPE, text=True, timeout=timeout, env=env)
         return p.returncode, p.stdout, p.stderr
     except subprocess.TimeoutExpired as e:
+        HANGS[0] += 1
         return -999, (e.stdout or b"").decode(errors="replace") if isinstance(e.stdout, bytes) else (e.stdout or ""), "TIMEOUT"
 
 
